@@ -68,6 +68,10 @@ structure Param (J V : Type) where
   exp : ExportSetting
   /-- `some head` for a `Limit` parameter named `<head>_min|_max|_limits` -/
   limitHead : Option String
+  /-- the datatype is a `LimitsType` (`<p>_limits` created by `Limit()`): `validate` also refuses an inverted pair.
+  That order test is not expressible in the described datainfo (a plain tuple); it is modelled with the limit checks,
+  and `dt.accept` stands for the tuple part only -/
+  isLimitsPair : Bool
   readonly : Bool
   /-- the `constant` property (internal value); a constant parameter is read-only -/
   constant : Option V
